@@ -33,6 +33,7 @@ EventOK(e) ==
                              /\ e.ok => e.out = e.a
     [] e.op = "iscanonical" -> e.ok <=> Lt(In255(e.a), LL)
     [] e.op = "scminimal" -> e.ok <=> Below(e.a)
+    [] e.op = "fresh" -> e.ok = TRUE          \* a marshalled value is the caller's own copy
     [] OTHER -> FALSE
 
 VARIABLE l
